@@ -21,6 +21,10 @@ CHECKS = {
    text="product enumeration of the first-message shape grammar x follow-up menu through the real per-connection handler on a real gorilla server connection (operator and service endpoints), plus stateless exploration of every schedule within a preemption bound of handshake vs broadcasting listener vs peer close on instrumented code",
    note="gorilla websocket is the real library on a scripted in-memory connection; 3 threads, preemption bound 2/3; first-message grammar as listed in the evidence",
    technique="bounded-exhaustive product enumeration + controlled-scheduler stateless model checking of the implementation"),
+ "C11": dict(level="model_checking",
+   text="explicit-state BFS over record/broadcast/remove/connect/disconnect histories with real handler goroutines parked on scripted websocket connections, every operator's frames compared with an event-log reference model after every step; every write index x fault kind on one operator's transport; every schedule within a preemption bound of concurrent broadcasters and a joining operator (controlled scheduler on instrumented code)",
+   note="a stalled transport = arbitrarily delayed write that finally fails; 2 operators; preemption bound 2/3 (1/2 with a joining operator); gorilla websocket is the real library over a scripted connection",
+   technique="explicit-state BFS + fault enumeration + controlled-scheduler stateless model checking of the implementation"),
 }
 NA_REASON = "check under construction in this session (see DESIGN.md §4); not yet claimed"
 
